@@ -189,7 +189,8 @@ CallUri(f, args, src, log) ==
                    [] f = "decodeURI" -> Decode(s, "uri", ts.log)                       \* 15.1.3.1
                    [] f = "decodeURIComponent" -> Decode(s, "comp", ts.log)             \* 15.1.3.2
                    [] f = "escape" -> UOk(EscapeAt(s, 1, <<>>), ts.log)                 \* B.2.1
-                   [] f = "unescape" -> UOk(UnescapeAt(s, 1, <<>>), ts.log)             \* B.2.2
+                   [] f = "unescape" -> (LET u == UnescapeAt(s, 1, <<>>)                  \* B.2.2
+                                         IN  UOk(IF D("D27_lone_surrogate_fffd") THEN Sanitize(u, 1) ELSE u, ts.log))   \* the result is a string value too
 
 (* g(f(s)): the round trips of the property statement *)
 CallUri2(g, f, args, src, log) ==
